@@ -203,10 +203,15 @@ class E1(Base):
             u = rng.random()
             if u < self.CALL_FORMS and cfg["p"]:
                 # unusual but legal calling forms: numpy integers, keywords
-                cfg["p"]["call"] = rng.choice(("np", "np", "kw", "npkw", "pos",
-                                               "nppos"))
-            if "uf" in cfg["p"] and rng.random() < 0.3:
-                cfg["p"]["costs_int"] = True
+                cfg["p"]["call"] = rng.choice(("np", "np32", "kw", "npkw",
+                                               "pos", "nppos"))
+            if "uf" in cfg["p"]:
+                u = rng.random()
+                if u < 0.25:
+                    cfg["p"]["costs_int"] = True
+                elif u < 0.37:
+                    # numpy.float64 / fractions.Fraction costs
+                    cfg["p"]["costs_form"] = "np" if u < 0.33 else "frac"
         style = "every" if rng.random() < 0.7 else "first"
         if rng.random() < 0.3:
             style += "+for"
